@@ -124,9 +124,39 @@ Theorem C07_get_mapping_exact : forall (QA A QB B : Type) (amatch : QA -> A -> b
   forall comps clo flt scope, compile_query q_atoms q_bonds = Ok (comps, clo) ->
   exists stream,
     mol_get_mapping amatch bmatch q_atoms q_bonds o_atoms o_bonds tcomps flt scope = Ok (auto_filter flt [] stream) /\
+    NoDup stream /\
     forall f, In f stream <-> multi_embedding QA A QB B amatch bmatch q_atoms q_bonds o_atoms o_bonds tcomps comps scope f.
 Proof. exact get_mapping_exact. Qed.
 Print Assumptions C07_get_mapping_exact.
+
+(* the same, spelled out for the two values of automorphism_filter: with the filter every result is an embedding, every
+   embedding has a result with the same SET of image atoms and no two results share their set of image atoms; without it
+   the results are exactly the embeddings, each once *)
+Theorem C07_get_mapping_filtered_exact : forall (QA A QB B : Type) (amatch : QA -> A -> bool) (bmatch : QB -> B -> bool)
+    (q_atoms : list (Z * QA)) (q_bonds : list (Z * list (Z * QB))) (o_atoms : list (Z * A)) (o_bonds : list (Z * list (Z * B)))
+    (tcomps : list (list Z)),
+  wf_adj q_atoms q_bonds -> wf_adj o_atoms o_bonds -> tcomps_ok A B o_atoms o_bonds tcomps ->
+  forall comps clo scope, compile_query q_atoms q_bonds = Ok (comps, clo) ->
+  (exists res, mol_get_mapping amatch bmatch q_atoms q_bonds o_atoms o_bonds tcomps true scope = Ok res /\
+     (forall m, In m res -> multi_embedding QA A QB B amatch bmatch q_atoms q_bonds o_atoms o_bonds tcomps comps scope m) /\
+     (forall f, multi_embedding QA A QB B amatch bmatch q_atoms q_bonds o_atoms o_bonds tcomps comps scope f ->
+                exists m, In m res /\ (forall y, In y (image f) <-> In y (image m))) /\
+     ForallOrdPairs (fun a b => ~ (forall y, In y (image a) <-> In y (image b))) res) /\
+  (exists res, mol_get_mapping amatch bmatch q_atoms q_bonds o_atoms o_bonds tcomps false scope = Ok res /\
+     NoDup res /\
+     forall f, In f res <-> multi_embedding QA A QB B amatch bmatch q_atoms q_bonds o_atoms o_bonds tcomps comps scope f).
+Proof. exact get_mapping_filtered_exact. Qed.
+Print Assumptions C07_get_mapping_filtered_exact.
+
+(* several pattern components: nothing is yielded twice (before the filter) *)
+Theorem C07_multi_stream_NoDup : forall (QA A QB B : Type) (amatch : QA -> A -> bool) (bmatch : QB -> B -> bool)
+    (q_atoms : list (Z * QA)) (q_bonds : list (Z * list (Z * QB))) (o_atoms : list (Z * A)) (o_bonds : list (Z * list (Z * B)))
+    (tcomps : list (list Z)) (comps : list (list (lentry QA QB))) (clo : closures_t QB),
+  wf_adj q_atoms q_bonds -> wf_adj o_atoms o_bonds -> tcomps_ok A B o_atoms o_bonds tcomps ->
+  compiled_ok q_atoms q_bonds comps clo ->
+  forall scope, NoDup (multi_stream QA A QB B amatch bmatch o_atoms o_bonds tcomps comps clo scope).
+Proof. exact multi_stream_NoDup. Qed.
+Print Assumptions C07_multi_stream_NoDup.
 
 Theorem C07_is_substructure_iff : forall (QA A QB B : Type) (amatch : QA -> A -> bool) (bmatch : QB -> B -> bool)
     (q_atoms : list (Z * QA)) (q_bonds : list (Z * list (Z * QB))) (o_atoms : list (Z * A)) (o_bonds : list (Z * list (Z * B)))
@@ -210,3 +240,11 @@ Theorem C07_recorded_is_bond : forall (QA QB : Type) (atoms : list (Z * QA)) (bo
     (In x (keys atoms) -> NoDup (keys (clo_get clo x))).
 Proof. exact recorded_is_bond. Qed.
 Print Assumptions C07_recorded_is_bond.
+
+(* _compile_query of a well-formed graph returns: no KeyError, no StopIteration, and the model's loop bound (a termination
+   device, S (number of adjacency entries) pops per component) is never reached -- so the hypothesis `compile_query .. = Ok ..`
+   of the theorems above always holds for the graphs a container can hold *)
+Theorem C07_compile_query_total : forall (QA QB : Type) (atoms : list (Z * QA)) (bonds : list (Z * list (Z * QB))),
+  wf_adj atoms bonds -> exists comps clo, compile_query atoms bonds = Ok (comps, clo).
+Proof. exact compile_query_total. Qed.
+Print Assumptions C07_compile_query_total.
